@@ -100,7 +100,8 @@ def run(prop, tier, replay=None):
                 return False
             small = [v for v in allsc if sum(len(d["tests"]) for d in v["sc"]["docs"]) <= 1 or (prop in ("C20", "C05") and rare(v)) or detcut(v) or v["sc"].get("compat")
                      or (prop == "C05" and (v["sc"]["pre"] or v["sc"]["app"]))
-                     or any(t["beh"] == "exitscript" and t["code"] == 3 for d in v["sc"]["docs"] for t in d["tests"])]
+                     or any(t["beh"] == "exitscript" and t["code"] == 3 for d in v["sc"]["docs"] for t in d["tests"])
+                     or (v["sc"].get("dirarg") and len(v["sc"]["docs"]) == 3 and len(v["sc"]["docs"][0]["tests"]) == 1 and v["sc"]["docs"][0]["fmt"] == "md")]
             rest = [v for v in allsc if v not in small]
             chosen = small + rnd.sample(rest, max(0, want - len(small)))
         cov["scenarios_enumerated"] = len(allsc)
